@@ -84,4 +84,86 @@ class P:
                 yield {"keys": [b64e(kb[:i] + kb[i + 1:])]}
 
 
+# ---------------------------------------------------------------------------------------------------------------
+# part 2: the last sentence of the property -- "a container carrying Docker label k=v is therefore selected by the
+# selector {sanitised(k)="v"}" -- end to end: query text -> logql.Parse -> Engine.Eval -> dockerlog.Querier -> fake daemon
+import re as _re
+from pathlib import Path as _Path
+import dgen as _dgen
+from dgen import Ctr as _Ctr, S as _S, T0 as _T0
+from egen import EGen as _EGen, B as _B, sm_coq as _sm_coq, key_to_label as _ktl, oracles_coq as _oracles_coq
+from props.dockcommon import DockProp as _DockProp
+
+
+def logql_keywords():
+    """every word in the lexer's token table of the CURRENT tree (by, on, json, drop, sum, ...): each is a valid label name"""
+    try:
+        src = _Path("/repo/internal/logql/lexer/token.go").read_text()
+        words = sorted(set(_re.findall(r'^\s*"([a-z_]+)":\s+\w+,', src, _re.M)))
+    except OSError:
+        words = []
+    return words or ["by", "on", "json", "drop", "keep", "bool", "offset", "without", "unwrap", "logfmt", "ip", "sum", "or", "and", "unless"]
+
+
+class SelP(_DockProp):
+    id = "C20"
+    name = "selectability"
+    rule = ("part `selectability`: for a Docker label key k (every word of the lexer's keyword table of the current tree, every string of length <= 2 over the 13-symbol alphabet, "
+            "random longer keys, keys colliding after sanitisation, a key shadowing a built-in label) an inventory holds a container with k=v, one with k=other, one without k "
+            "and sometimes one with two keys that sanitise to the same name; the query text {sanitised(k)=\"v\"} (name computed by the generator's own KeyToLabel) goes through "
+            "logql.Parse, Engine.Eval and dockerlog.Querier over the fake daemon; demanded: no error, exactly the containers whose label view has sanitised(k)=v are asked for "
+            "logs, every returned line carries that label; everything equals the Docker model.")
+
+    def gen(self, rng, tier):
+        g = _EGen(rng)
+        kws = logql_keywords()
+        ualpha = [a.decode() for a in ALPHA if a not in (b"\xff", b"\xc3")]        # Docker label keys are JSON strings: valid UTF-8 only
+        short = ["".join(t) for n in (1, 2) for t in itertools.product(ualpha, repeat=n)]
+        keys = list(kws)
+        nshort = {"quick": 40, "thorough": len(short), "search": 60}[tier]
+        keys += rng.sample(short, min(nshort, len(short)))
+        for _ in range({"quick": 40, "thorough": 400, "search": 80}[tier]):
+            n = rng.randint(3, 12)
+            keys.append("".join(rng.choice(ualpha) for _ in range(n)))
+        keys += ["container", "container_name", "com.docker.compose.service", "9lives"]
+        self.nsel = len(keys)
+        return [self.one(rng, g, k, i) for i, k in enumerate(keys)]
+
+    def one(self, rng, g, k, i):
+        kb = k.encode()
+        name = _ktl(kb)
+        if not name:
+            kb, k = b"x", "x"
+            name = b"x"
+        v, other = "v1", rng.choice(["v2", "", "v11"])
+        ctrs = [_Ctr(rng, 0, labels={k: v}), _Ctr(rng, 1, labels={k: other}), _Ctr(rng, 2, labels={})]
+        # a second key with the same sanitised name (sorted key order decides which value wins)
+        twin = None
+        for a, b in ((".", "-"), ("-", "/"), ("/", "."), (" ", ".")):
+            if a in k:
+                twin = k.replace(a, b, 1)
+                break
+        if twin and twin != k and _ktl(twin.encode()) == name:
+            ctrs.append(_Ctr(rng, 3, labels={k: v, twin: other}))
+            ctrs.append(_Ctr(rng, 4, labels={k: other, twin: v}))
+        for c in ctrs:
+            c.set_records(rng, rng.randint(1, 3), _T0 + _S, 3 * _S)
+        lname = name.decode("ascii")
+        sel = [{"l": lname, "op": "=", "v": v, "coq": "em %s %s" % (cbytes(name), _sm_coq("=", v)),
+                "pred": lambda view, name=name, v=v: view.get(name, b"") == _B(v)}]
+        exp = [c.id for c in _dgen.selected(ctrs, sel)]
+        start, end = _T0, _T0 + 10 * _S
+        q = g.query_text(sel, [], rng.choice(["spaced", "tight", "spaced"]))
+        evals = [{"q": b64e(q), "qcoq": "DQLog (%s) 0" % g.query_coq(sel, []), "limit": 0, "start": start, "end": end, "step": 0, "release": list(range(len(ctrs))),
+                  "exp_selected": exp, "exp_opts": {cid: [str(start // _S), str(end // _S)] for cid in exp}, "must_err": False, "must_ok": True}]
+        return {"kind": "keyword" if k in logql_keywords() else "key", "ctrs": [c.json() for c in ctrs], "ctrs_coq": clist(c.coq() for c in ctrs),
+                "ctrs_intended_coq": clist(c.coq(False) for c in ctrs), "list_fail": False, "oracle": _oracles_coq(), "evals": evals, "same": [], "faults": [],
+                "summary": ["%s labels=%r" % (c.id, c.labels) for c in ctrs], "note": "docker label key %r -> {%s=\"%s\"}" % (k, lname, v)}
+
+    def extra_coverage(self, tier):
+        return {"label_keys_evaluated": getattr(self, "nsel", 0)}
+
+
+P.name = "mapping"
 PROP = P()
+PROP.parts = [PROP, SelP()]
